@@ -337,15 +337,26 @@ done:
 }
 
 /* ---- signature parsing */
+/* k == 100: a signature whose calendar chain switches the hash algorithm (left links carrying SHA-512 and then SHA-256 imprints) */
+static void mixed_calendar_bytes(vbuf *out) {
+	rsig s;
+	int i, nleft = 0;
+	sig_model(2, &s);
+	for (i = 0; i < s.ncal; i++) if (s.cal[i].is_left && nleft++ == 1) { rlink l; ref_link_imprint(&l, 1, RH_SHA512, 4711, 0); s.cal[i] = l; }
+	if (nleft < 3) vf_harness_error("fixture calendar chain has %d left links, 3 needed", nleft);
+	if (rs_fix(&s, RS_FIX_TAIL) != 0) vf_harness_error("fixture: mixed-algorithm calendar chain");
+	rs_serialize(&s, out);
+}
 static void su_sigbytes(int k) {
 	net_reset();
 	G.ctx = ku_ctx();
-	sig_bytes(k % NFORMS, &G.in);
+	if (k == 100) mixed_calendar_bytes(&G.in);
+	else sig_bytes(k % NFORMS, &G.in);
 }
 static int run_parse(int k) {
 	KSI_Signature *s = NULL;
 	int res;
-	CK(KSI_Signature_parseWithPolicy(G.ctx, G.in.p, G.in.n, k >= NFORMS ? KSI_VERIFICATION_POLICY_EMPTY : KSI_VERIFICATION_POLICY_INTERNAL, NULL, &s));
+	CK(KSI_Signature_parseWithPolicy(G.ctx, G.in.p, G.in.n, (k >= NFORMS && k != 100) ? KSI_VERIFICATION_POLICY_EMPTY : KSI_VERIFICATION_POLICY_INTERNAL, NULL, &s));
 done:
 	fault_off();
 	if (res == KSI_OK) out_sig(s);
@@ -1377,6 +1388,7 @@ static const op_t OPS[] = {
 	{"parse-sig-auth", su_sigbytes, run_parse, 3},
 	{"parse-sig-rfc3161", su_sigbytes, run_parse, 4},
 	{"parse-sig-meta", su_sigbytes, run_parse, 5},
+	{"parse-sig-calendar-switching-algorithms", su_sigbytes, run_parse, 100},
 	{"parse-empty-nocal", su_sigbytes, run_parse, 6},
 	{"parse-empty-cal", su_sigbytes, run_parse, 7},
 	{"parse-empty-pub", su_sigbytes, run_parse, 8},
